@@ -36,7 +36,7 @@ ASSUMPTIONS = ["the memo key 'sgn0' in an element's __dict__ (functools.cached_p
                "fresh-interpreter replays use this machine's CPython build only"]
 ENGINE = "hypothesis stateful (RuleBasedStateMachine) + fresh-interpreter replays"
 TECHNIQUE = "stateful property-based testing (Hypothesis rule-based state machine) with snapshot invariants"
-_REQ = ["threads:concurrent_calls", "group:field", "group:curve", "group:pairing", "group:hash", "group:codec", "group:bls", "group:secp",
+_REQ = ["deep_stack_calls", "threads:concurrent_calls", "group:field", "group:curve", "group:pairing", "group:hash", "group:codec", "group:bls", "group:secp",
         "repeat", "fresh_process_replays", "const_as_argument", "adhoc_field_class", "history:nontrivial"]
 REQUIRED_LABELS = {"quick": _REQ, "thorough": _REQ}
 
@@ -717,6 +717,20 @@ def o_threads(ctx, case):
             th.join()
     finally:
         sys.setswitchinterval(old)
+    # the same calls made from deep inside the caller's own recursion: the library may not assume that it starts
+    # near the top of the stack (it raises the interpreter's recursion limit at import for its own recursions)
+    depth = min(case.get("depth", 0), sys.getrecursionlimit() // 3)
+    if depth:
+        def descend(k):
+            if k:
+                return descend(k - 1)
+            return [run(s_) for s_ in steps]
+        deep = descend(depth)
+        for i, (g_, e_) in enumerate(zip(deep, expected)):
+            if g_ != e_:
+                ctx.violation("threads", f"deep_stack_result_differs:{steps[i]['f']}", case,
+                              f"{steps[i]['f']} gives {g_[:160]} when called {depth} frames deep and {e_[:160]} at the top")
+        ctx.label("deep_stack_calls", len(steps))
     if bad:
         t, i, got = bad[0]
         ctx.violation("threads", f"concurrent_result_differs:{steps[i]['f']}", case,
@@ -750,7 +764,7 @@ def t_threads(ctx, reps):
         {"f": f"{OB}.final_exponentiate", "args": [{"c": f"{op}.exptable[7]"}]},
     ]
     steps = sanitize_steps(W, steps)
-    o_threads(ctx, {"steps": steps, "threads": 3, "reps": reps})
+    o_threads(ctx, {"steps": steps, "threads": 3, "reps": reps, "depth": 3000})
 
 
 ORACLES = {"history": o_history, "threads": o_threads}
